@@ -80,10 +80,11 @@ def emit(shape):
     h += "static const int sh_red[] = {%s};\nstatic const long sh_key[] = {%s};\n" % (arr(lambda x: 1 if x[0] == "R" else 0), arr(lambda x: x[4]))
     return h, [x[4] for x in nodes]
 
+RC_ASSIGN = ["Tree_Set:cv_tree_set_rec"]
 RC = ["exception_throw:cv_throw", "Tree_Get_Parent:cv_get_parent", "Tree_Set_Parent:cv_set_parent", "Tree_Set_Color:cv_set_color", "Tree_Get_Color:cv_get_color"]
 FUNCS = ["Tree_Set", "Tree_Set_Fix", "Tree_Rem", "Tree_Rem_Fix", "Tree_Rotate_Left", "Tree_Rotate_Right", "Tree_Replace", "Tree_Get", "Tree_Mem", "Tree_Maximum",
          "Tree_Sibling", "Tree_Uncle", "Tree_Grandparent", "Tree_Iter_Init", "Tree_Iter_Next", "Tree_Iter_Last", "Tree_Iter_Prev", "Tree_Clear", "Tree_Clear_Entry",
-         "Tree_Resize", "Tree_Mark", "Tree_Hash", "Tree_Cmp", "Tree_Alloc", "Tree_Left", "Tree_Right", "Tree_Key", "Tree_Val", "Tree_Len"]
+         "Tree_Resize", "Tree_Mark", "Tree_Hash", "Tree_Cmp", "Tree_Assign", "Tree_Alloc", "Tree_Left", "Tree_Right", "Tree_Key", "Tree_Val", "Tree_Len"]
 
 def jobs(tier, only_ops=None, prefix="C03", nmax_quick=6):
     nmax = 8 if tier == "thorough" else nmax_quick
@@ -110,7 +111,7 @@ def jobs(tier, only_ops=None, prefix="C03", nmax_quick=6):
                 if mop is not None:
                     defs.append("MOP=%d" % mop)
                 J.append(Job("%s.%s.shape%d.n%d%s%s" % (prefix, op, sid, n, "" if key is None else ".k%d" % key, "" if mop is None else ".m%d" % mop), "C03", "K3", "Tree/k3.c", "h_" + op, FUNCS, link=L,
-                             defines=defs, replace_calls=RC, unwind=2 * n + 8, gen={"gen_shape.h": hdr}, covers=covers, group="Tree.%s" % op,
+                             defines=defs, replace_calls=RC + (RC_ASSIGN if op == "assign" else []), unwind=2 * n + 8, gen={"gen_shape.h": hdr}, covers=covers, group="Tree.%s" % op,
                              also=["C05", "C11", "C12", "C19", "C01", "C06", "C09", "C10"], timeout=300, cbmc=["--unwindset", "calloc.0:%d" % (n + 4)],
                              bound="Tree: every red-black shape with <= %d nodes (%d shapes), rank keys, operand = every present key and every gap" % (nmax, sum(counts[1:nmax + 1]) + 1),
                              case="shape %d (%d nodes) %s" % (sid, n, "" if key is None else "operand key %d" % key), replay="tree_search.c",
@@ -128,11 +129,12 @@ def jobs(tier, only_ops=None, prefix="C03", nmax_quick=6):
             if n <= 3:
                 for mop in range(0, 3):
                     add("hash_cmp", None, covers=(mop == n), mop=mop)
+                    add("assign", None, covers=(mop == 1), mop=mop)
             add("clear", 1, covers=True)
     return J
 
 
-TREE_OPS_FOR = {"C09": ["hash_cmp"], "C10": ["hash_cmp"], "C01": ["mark"], "C06": ["clear"], "C05": ["set", "rem", "clear"], "C11": ["iter"], "C12": ["rem", "get"], "C19": ["get", "iter"]}
+TREE_OPS_FOR = {"C09": ["hash_cmp"], "C10": ["hash_cmp"], "C01": ["mark"], "C06": ["clear"], "C05": ["set", "rem", "clear", "assign"], "C11": ["iter"], "C12": ["rem", "get"], "C19": ["get", "iter"]}
 
 def tree_jobs(tier, prop):
     # the properties that share the Tree harness take the shapes up to 5 nodes in the quick tier (C03 itself: 6)
